@@ -46,7 +46,7 @@ func (g *c09Gen) returns(depth int, allowInclude bool) []*mj.Node {
 		return mj.Str(g.id("R"))
 	}
 	ret := func() *mj.Node { return &mj.Node{K: "return", E: val()} }
-	k := g.n(0, 8, "retpos")
+	k := g.n(0, 10, "retpos")
 	g.labels[fmt.Sprintf("return-position:%d", k)] = true
 	switch k {
 	case 0: // none
@@ -68,6 +68,17 @@ func (g *c09Gen) returns(depth int, allowInclude bool) []*mj.Node {
 		return []*mj.Node{{K: "try", Body: []*mj.Node{{K: "fail", Src: "noSuchName", Class: "unknown-identifier"}}, HasCatch: true, Catch: []*mj.Node{ret()}}, mj.Text("after-catch")}
 	case 6: // return, then a range and an include-free tail that return nothing
 		return []*mj.Node{ret(), {K: "range", E: mj.Call("ints", mj.Num(0), mj.Num(2)), Body: []*mj.Node{mj.Text("r")}}, {K: "try", Body: []*mj.Node{mj.Text("t")}}, mj.Text("tail")}
+	case 9: // in the body of a block rendered where it is defined, or yielded by name
+		name := g.id("retblk")
+		def := &mj.Node{K: "block", Name: name, Body: []*mj.Node{mj.Text("in-block"), ret(), mj.Text("still-in-block")}}
+		if g.n(0, 1, "retBlockYielded") == 0 {
+			return []*mj.Node{def, mj.Text("between"), {K: "yield", Name: name}, mj.Text("after-yield")}
+		}
+		return []*mj.Node{def, mj.Text("after-block")}
+	case 10: // in the content handed to a block that yields it
+		name := g.id("retwrap")
+		return []*mj.Node{{K: "block", Name: name, Body: []*mj.Node{mj.Text("(wrap:"), {K: "ycontent"}, mj.Text(":wrap)")}, HasCont: true, Content: []*mj.Node{mj.Text("default-content")}},
+			{K: "yield", Name: name, HasCont: true, Content: []*mj.Node{mj.Text("content-with-return"), ret()}}, mj.Text("after-content")}
 	case 7: // return nil only
 		return []*mj.Node{{K: "return", E: mj.Nil()}, mj.Text("after-return-nil")}
 	default: // inside an included sub-template
@@ -420,7 +431,7 @@ func judgeC09(c c09Case) (v core.Verdict) {
 
 func TestC09(t *testing.T) {
 	core.Run(t, "C09",
-		"template sets with files in nested directories: call sites of include (absolute, ./ and ../ relative, computed names, name and context both read from the dot of a range, names that are fmt.Stringers of struct and of string kind; with/without context), exec (with/without context; callee with return at every position: none, top, several, in if, in range, in try/catch, followed by statements that return nothing, return nil, inside an included sub-template) and includeIfExists (existing, missing - also with a context expression that would fail if evaluated -, unparsable; as statement and as condition), placed at depth 0-3 inside range / block / try / other includes; callees extend 0-2 levels, declare variables, rebind '.', define blocks, yield the caller's blocks, assign the caller's variables; probes after every call site; exec of a name computed by a function that answers differently on every call; one case in forty with more than 1000 includes in one loop; one case in four with some callee files created only after a first execution of the set; oracle = MiniJet reference interpreter; non-trivial = call site at depth>=2 with a callee that rebinds '.' / an exec / an explicit context",
+		"template sets with files in nested directories: call sites of include (absolute, ./ and ../ relative, computed names, name and context both read from the dot of a range, names that are fmt.Stringers of struct and of string kind; with/without context), exec (with/without context; callee with return at every position: none, top, several, in if, in range, in try/catch, in a block body, in yield content, followed by statements that return nothing, return nil, inside an included sub-template) and includeIfExists (existing, missing - also with a context expression that would fail if evaluated -, unparsable; as statement and as condition), placed at depth 0-3 inside range / block / try / other includes; callees extend 0-2 levels, declare variables, rebind '.', define blocks, yield the caller's blocks, assign the caller's variables; probes after every call site; exec of a name computed by a function that answers differently on every call; one case in forty with more than 1000 includes in one loop; one case in four with some callee files created only after a first execution of the set; oracle = MiniJet reference interpreter; non-trivial = call site at depth>=2 with a callee that rebinds '.' / an exec / an explicit context",
 		genC09, judgeC09)
 }
 
